@@ -6,7 +6,45 @@ SEQ_ASSUME = [
     "virtual clock: Instant::now() in calloop is replaced by the harness clock (hook H1); the blocking wait is replaced by a zero-timeout wait plus clock advance (hook H2)",
 ]
 
+WORLD_RULE = ("every history of top-level operations up to the depth bound over the driver's alphabet, with every placement of "
+              "in-callback handle operations up to the deviation bound, is executed against the real EventLoop (choice-tape re-execution "
+              "DFS, iterative deviation bounding, optional state-hash pruning) and judged step by step by the reference model. "
+              "distinct = distinct observation logs (callback sequence + results); non-trivial = at least one callback ran AND at least "
+              "one in-callback deviation took effect")
+
+def world(level_drivers):
+    return level_drivers
+
 TABLE = {
+    "C01": {
+        "level": "model_checking", "rule": WORLD_RULE, "assumptions": SEQ_ASSUME,
+        "drivers": [
+            {"driver": "reuse", "required_clauses": ["callback-legitimacy", "stale-token", "dispatch-owed", "timer-fire"]},
+            {"driver": "batch", "required_clauses": ["callback-legitimacy", "dispatch-owed"]},
+            {"driver": "disable", "required_clauses": ["callback-legitimacy"]},
+        ],
+    },
+    "C02": {
+        "level": "model_checking", "rule": WORLD_RULE, "assumptions": SEQ_ASSUME + ["HUP/ERR readiness is not generated (both ends of every fd stay open)"],
+        "drivers": [
+            {"driver": "modes", "required_clauses": ["dispatch-owed", "oneshot", "epoll-table", "callback-legitimacy"]},
+            {"driver": "batch", "required_clauses": ["dispatch-owed", "callback-legitimacy", "timer-fire"]},
+        ],
+    },
+    "C06": {
+        "level": "model_checking", "rule": WORLD_RULE, "assumptions": SEQ_ASSUME + ["no actor owns a strong LoopHandle (the documented reference cycle is excluded by construction)"],
+        "drivers": [
+            {"driver": "removal", "required_clauses": ["release", "stale-token", "callback-legitimacy", "epoll-table"]},
+            {"driver": "reuse", "required_clauses": ["release", "stale-token"]},
+        ],
+    },
+    "C07": {
+        "level": "model_checking", "rule": WORLD_RULE, "assumptions": SEQ_ASSUME,
+        "drivers": [
+            {"driver": "disable", "required_clauses": ["callback-legitimacy", "dispatch-owed", "timer-fire", "oneshot"]},
+            {"driver": "batch", "required_clauses": ["callback-legitimacy", "dispatch-owed"]},
+        ],
+    },
     "C20": {
         "level": "exploration",
         "rule": ("every (generation, sub-id) pair (2^32 of them) for each boundary slot id is pushed through the real "
